@@ -380,6 +380,27 @@ func checkBudgetTransport(r *Run, prog *Program, a *Anchors, newParser, maxExprO
 			r.Check(pfx+".transport", "CreateEvaluator:budget≠0", prog.pos(ev.Instr.Pos()), ok, why)
 		}
 	}
+	// the budget decides nothing in CreateEvaluator except whether the parser gets the option: every condition that mentions it
+	// is the comparison with zero
+	okUse := true
+	whyUse := ""
+	for _, sm := range sums {
+		lf := collectLookup(sm)
+		if lf.getOpts == nil {
+			continue
+		}
+		bk := (&Sym{K: sField, A: lf.getOpts.Res, Str: optField(prog, "WithMaxExpressions")}).Key()
+		for k := range sm.St.facts {
+			if !strings.Contains(k, bk) {
+				continue
+			}
+			if k == "cmp(==,"+bk+",const(0))" || k == "cmp(==,const(0),"+bk+")" {
+				continue
+			}
+			okUse, whyUse = false, k
+		}
+	}
+	r.Check(pfx+".transport", "CreateEvaluator:budget-only-tested-for-zero", prog.pos(fn.Pos()), okUse, "CreateEvaluator decides something else on the budget ("+whyUse+"): the budget must act only as the parser's step limit")
 	r.Check(pfx+".transport", "CreateEvaluator:paths", prog.pos(fn.Pos()), nz > 0 && z > 0, fmt.Sprintf("info: %d non-zero and %d zero-budget paths to grammar.Parse", nz, z))
 	// Parse hands its options to newParser; newParser applies them before mapping zero to unlimited
 	okOrder := false
@@ -475,6 +496,8 @@ func init() {
 		checkCreateEvaluator(r, prog, a, nil, "c10") // every creation parses, once: acceptance is a function of (bytes, budget) only
 		checkRecoverDiscipline(r, prog, "c10")
 		checkResultShape(r, prog, a, a.CreateEv, "c10")
+		r.importing = "C15"
+		checkErrorRecording(r, prog, "c15") // the budget error, once raised, is the error reported: nothing filters recorded errors
 		r.importing = ""
 		r.Technique = "field read/write census for the step counter and the budget over the whole module; dominance check of the counter test over the dispatch; who-may-call census of the engine methods (VTA call graph); symbolic transport check option→CreateEvaluator→grammar.MaxExpressions→parser field; recover discipline imported from C10"
 		r.Explain = "Proof by non-interference: the budget travels unmodified from WithMaxExpressions to parser.maxExprCnt (passed iff non-zero; zero mapped to MaxUint64 after the options are applied); the counter has exactly one writer (+1, in parseExpr's entry block) and is read only by that increment and by one ordered comparison with the budget whose exceeded edge panics with errMaxExprCnt; that test dominates the whole dispatch; every engine method is entered only through parseExpr (parseRule only from parse / parseRuleRefExpr), so every step is counted. Since nothing else reads counter or budget, a limited run executes exactly the instruction sequence of the unlimited run until the test fires: with N the unlimited run's step count, n = 0 or n ≥ N gives the identical result, 0 < n < N panics at step n+1 and never later; the panic is recovered into the error (C10). `>` and `>=` both give a threshold."
